@@ -28,12 +28,14 @@ NUMS = [0.0, 1.0, -1.0, 2.0, 3.0, 0.5, -2.5, 1.15, 2.675, 1e200, -1e200, 1e-200,
 NUMTEXT = ['3', ' 3 ', '-1.5', '1e3', '0']
 TEXT = ['abc', 'a', 'A', 'B', 'b', '', ' ']
 TRAPS = ['inf', 'nan', '1_0', '３', 'Infinity', '0x10', '1,5']
+EDGE_TEXT = ['-1e999', '5.', '1e999']  # numeric text beyond the double range on both sides; a trailing decimal point
 ERRS = [Err(e) for e in sut.ERRORS]
 
 
 def pool(tier):
     p = NUMS + NUMTEXT + TEXT + [True, False, BLANK] + ERRS
     p += TRAPS[:3] if tier == 'quick' else TRAPS
+    p += EDGE_TEXT
     return p
 
 
@@ -149,6 +151,17 @@ def check_pair(case):
         except Exception as ex:
             got = Foreign('raised:%s' % type(ex).__name__)
         text = '=B1%sC1 with B1=%r, C1=%r%s' % (op, a, b, ' (compiled function called directly)' if sp == 'func' else '')
+    elif sp in ('cell-lit', 'lit-cell'):
+        # one operand read from a cell, the other one written into the formula
+        f = ('=B1%s%s' % (op, X.literal(b))) if sp == 'cell-lit' else ('=%s%sB1' % (X.literal(a), op))
+        text = f + ' with B1=%r' % ((a if sp == 'cell-lit' else b),)
+        try:
+            v, _ = sut.cell_eval('A1', f, {'B1': [[a if sp == 'cell-lit' else b]]})
+            got = sut.one(v) if not isinstance(v, str) or v != 'MISSING' else Foreign('no-output')
+        except sut.Watchdog:
+            raise
+        except Exception as ex:
+            got = Foreign('raised:%s' % type(ex).__name__)
     elif sp == 'comp':
         text = '=%s%s%s' % (computed(a), op, computed(b))
         got = lit_eval(text)
@@ -294,6 +307,10 @@ def _enum(tier):
             for b in P:
                 yield {'k': 'pair', 'op': op, 'a': enc(a), 'b': enc(b), 'sp': 'cell'}
                 yield {'k': 'pair', 'op': op, 'a': enc(a), 'b': enc(b), 'sp': 'func'}
+                if not isinstance(b, Blank):
+                    yield {'k': 'pair', 'op': op, 'a': enc(a), 'b': enc(b), 'sp': 'cell-lit'}
+                if not isinstance(a, Blank):
+                    yield {'k': 'pair', 'op': op, 'a': enc(a), 'b': enc(b), 'sp': 'lit-cell'}
                 if not isinstance(a, Blank) and not isinstance(b, Blank):
                     yield {'k': 'pair', 'op': op, 'a': enc(a), 'b': enc(b), 'sp': 'lit'}
                     if not (isinstance(a, float) and abs(a) in (1e200, 1e-200)) and not (isinstance(b, float) and abs(b) in (1e200, 1e-200)):
